@@ -192,7 +192,12 @@ func leaf(k string, t reflect.Type) *tnode { return &tnode{K: k, T: t} }
 func primNode(name string) *tnode { return leaf(name, primTypes[name]) }
 
 func catNode(name string) *tnode {
-	if name == "RichP" && !fixedNilEmbedded() {
+	if name == "MyErr" && !fixedRebind() {
+		// a re-bound element wrapper of a type whose error/Stringer methods have pointer receivers panics in toString
+		// (known finding C13-rebind-incomplete): the type is left to the pinned witness until that is fixed
+		name = "Str"
+	}
+	if name == "RichP" && !(fixedNilEmbedded() && fixedEmbCache()) {
 		// any write that zeroes the struct makes the embedded pointer nil, and then every promoted-field access panics
 		// (known finding C13-nil-embedded-ptr): the type is left to the pinned witness until that is fixed
 		name = "Rich"
@@ -219,8 +224,8 @@ func genType(r *core.Rng, depth int) *tnode {
 		return genStruct(r, depth)
 	case 2:
 		e := genType(r, depth-1)
-		if e.K == "iface" || e.K == "bigint" {
-			// *interface{} and **big.Int fall under "any other type" (generic host object): outside the documented mapping
+		if e.K == "iface" || e.K == "bigint" || e.K == "func" {
+			// *interface{}, **big.Int and *func fall under "any other type" (generic host object): outside the documented mapping
 			e = primNode(core.Pick(r, primNames))
 		}
 		return &tnode{K: "ptr", T: reflect.PointerTo(e.T), Elem: e, Depth: e.Depth + 1}
@@ -234,6 +239,11 @@ func genType(r *core.Rng, depth int) *tnode {
 	case 5:
 		e := genType(r, depth-1)
 		k := primNode(core.Pick(r, keyNames))
+		if e.K == "func" && k.K != "string" && !fixedNilFuncCall() {
+			// every name (toJSON, toString …) converts to a numeric key: JSON.stringify then calls the entry at key 0, which may
+			// be a nil func (known finding C13-nil-func-call)
+			e = primNode(core.Pick(r, primNames))
+		}
 		return &tnode{K: "map", T: reflect.MapOf(k.T, e.T), Elem: e, Key: k, Depth: e.Depth + 1}
 	case 6:
 		return genFunc(r)
@@ -378,7 +388,10 @@ var (
 
 // named uint64 above MaxInt64 shows up negative in script (known finding C13-named-uint64-valueof): excluded from
 // random generation until the pinned witness passes.
-func fillValue(r *core.Rng, t *tnode, v reflect.Value, depth int) {
+func fillValue(r *core.Rng, t *tnode, v reflect.Value, depth int) { fill(r, t, v, depth, false) }
+
+// viaPtr: v is the target of a pointer (script sees pointed-to primitives as host objects)
+func fill(r *core.Rng, t *tnode, v reflect.Value, depth int, viaPtr bool) {
 	switch v.Kind() {
 	case reflect.Bool:
 		v.SetBool(r.Bool())
@@ -396,7 +409,7 @@ func fillValue(r *core.Rng, t *tnode, v reflect.Value, depth int) {
 			bits := v.Type().Bits()
 			x = x << (64 - bits) >> (64 - bits)
 		}
-		if v.Type() == catTypes["MyU64"] && x > math.MaxInt64 && !fixedNamedUint64() {
+		if (viaPtr || !unnamed(v.Type())) && x > math.MaxInt64 && !fixedNamedUint64() {
 			x = math.MaxInt64
 		}
 		v.SetUint(x)
@@ -454,7 +467,7 @@ func fillValue(r *core.Rng, t *tnode, v reflect.Value, depth int) {
 			return
 		}
 		p := reflect.New(v.Type().Elem())
-		fillValue(r, elemOf(t), p.Elem(), depth-1)
+		fill(r, elemOf(t), p.Elem(), depth-1, true)
 		v.Set(p)
 	case reflect.Slice:
 		if r.Chance(1, 8) {
@@ -506,7 +519,7 @@ func fillValue(r *core.Rng, t *tnode, v reflect.Value, depth int) {
 				// unexported fields of hand-declared types to fillUnexported.
 				continue
 			}
-			if sf.Anonymous && f.Kind() == reflect.Ptr && !fixedNilEmbedded() {
+			if sf.Anonymous && f.Kind() == reflect.Ptr && !(fixedNilEmbedded() && fixedEmbCache()) {
 				// nil embedded pointers make promoted-field access panic (known finding C13-nil-embedded-ptr): keep non-nil
 				p := reflect.New(f.Type().Elem())
 				fillValue(r, nil, p.Elem(), depth-1)
